@@ -38,10 +38,27 @@ def generate(seed, scratch):
     share = list(range(len(names)))
     rs.shuffle(share)
     fresh = sorted(rs.sample(range(len(ents)), min(len(ents), 3))) if ents else []
+    # the tree changes between two analyses of one interpreter: a generated header appears in a directory that did not
+    # have one of that name (it may shadow the copy found so far), or a header disappears
+    env = None
+    hs = sorted(p for p in world["files"] if p.endswith((".h", ".hpp")) and p.startswith(world["root"] + "/"))
+    if hs and rs.random() < 0.3:
+        h = rs.choice(hs)
+        if rs.random() < 0.6:
+            dirs = sorted({os.path.dirname(p) for p in world["files"] if p.startswith(world["root"])})
+            cand = [d for d in dirs if os.path.join(d, os.path.basename(h)) not in world["files"]
+                    and os.path.join(d, os.path.basename(h)) not in world.get("dirs", [])
+                    and not any(f.startswith(os.path.join(d, os.path.basename(h)) + "/") for f in world["files"])
+                    and not any(l["path"] == os.path.join(d, os.path.basename(h)) for l in world.get("links", []))]
+            if cand:
+                env = {"kind": "add", "path": os.path.join(rs.choice(cand), os.path.basename(h)),
+                       "text": "#define %s 1\nint appeared_later;\n" % rs.choice(["S0", "S1", "A", "V"])}
+        else:
+            env = {"kind": "remove", "path": h}
     return {"property": PID, "seed": seed, "world": world, "cfg": cfg,
             "schedule": {"partition": partition, "subset": sub, "platform_order": plat_perm,
                          "command_order": cmd_perm, "share_order": share, "cli": rs.random() < 0.5,
-                         "fresh_sample": fresh}}
+                         "fresh_sample": fresh, "env_change": env}}
 
 
 def _sub_world_dbs(world, top, group, tag):
@@ -256,6 +273,22 @@ def execute(case, scratch):
                     return viol("result_depends_on_earlier_analyses_in_process",
                                 {"position": k, "platform": world["platforms"][i]["name"], "diffs": d,
                                  "db_equal": fresh["db"] == shared[k]["db"]})
+        # H_env (last: it changes the tree): analyse, change the tree, analyse again in the SAME interpreter; the second
+        # analysis must equal a fresh interpreter's view of the changed tree
+        ec = sched.get("env_change")
+        if ec and "env" not in skip and world["platforms"] and not h0["exc"]:
+            full = {"platforms": core.plat_specs(world, top), "excludes": excl}
+            path = os.path.join(top, ec["path"])
+            ops = [["write", path, ec["text"]]] if ec["kind"] == "add" else [["unlink", path]]
+            two = core.run_api(world, top, analyses=[full, full], fs_ops_after={"index": 0, "ops": ops})["obs"]
+            freshc = core.run_api(world, top, analyses=[full])["obs"][0]
+            stats["variants"] += 2
+            stats["faults"]["tree_changed_between_analyses"] = 1
+            if bool(freshc["exc"]) != bool(two[1]["exc"]) or (not freshc["exc"] and (
+                    core.diff_attr(freshc["attr"], two[1]["attr"]) or freshc["db"] != two[1]["db"])):
+                return viol("second_analysis_sees_stale_file_system",
+                            {"change": ec["kind"], "path": ec["path"], "fresh_exc": freshc["exc"], "shared_exc": two[1]["exc"],
+                             "diffs": core.diff_attr(freshc.get("attr") or {}, two[1].get("attr") or {})})
         multi = sum(1 for p in world["platforms"] if len(p["entries"]) > 1)
         stats["probes"]["platform_with_several_commands"] = multi
         stats["probes"]["user_compiler_config"] = 1 if world.get("cbi_config") else 0
@@ -267,7 +300,7 @@ def execute(case, scratch):
 
 def shrink_schedule(case):
     s = case["schedule"]
-    for h in ("iso", "part", "perm", "sub", "share"):
+    for h in ("iso", "part", "perm", "sub", "share", "env"):
         if h not in s.get("skip", []):
             c = copy.deepcopy(case)
             c["schedule"].setdefault("skip", []).append(h)
